@@ -187,8 +187,15 @@ class Case:
             finish_preempted(self.split_state)
 
 
+_SID = {}       # id(callable) -> number, for state functions that carry no __name__
+
+
 def sid_of(func):
-    return None if func is None else int(func.__name__.split('_')[1])
+    if func is None:
+        return None
+    if id(func) in _SID:
+        return _SID[id(func)]
+    return int(func.__name__.split('_')[1])
 
 
 # ---- a second real thread that executes a request while the cycle thread waits -------------------
@@ -432,6 +439,10 @@ def get_classes():
 
     global RAW_STATES, RAW_CLEAN
     RAW_STATES = [raw_state(i) for i in range(NSTATES)]
+    # the bare machine accepts any callable as a state: state 3 is a functools.partial (no __name__)
+    import functools
+    RAW_STATES[3] = functools.partial(RAW_STATES[3])
+    _SID[id(RAW_STATES[3])] = 3
     RAW_CLEAN = [raw_clean(i) for i in range(NCLEAN)]
 
     def raw_hook(sm, newstate):
@@ -517,7 +528,7 @@ def judge_req(case, events):
 # ---- generators -------------------------------------------------------------------------------------
 EX_OPS = [['cycle'],
           ['req', ['start', 0, 0, [[0, 1]], None]],
-          ['req', ['start', 1, None, [[0, 2], [1, 5]], None]],
+          ['req', ['start', 3, None, [[0, 2], [1, 5]], None]],
           ['req', ['stop', [100, 'stopped']]]]
 EX_STATE = [{'posts': [], 'fin': None, 'ret': ['next', 1]},
             {'posts': [], 'fin': None, 'ret': 'retry'},
